@@ -576,7 +576,12 @@ func caseC08(c *Ctx) {
 		if op.FromRoot {
 			env0.Tree = forest[0]
 		}
-		c.Direct(op, env0)
+		if op.Massive {
+			env0.MaxSteps = 60000
+			c.Sim("earlier", op, env0) // (real goroutines of an un-simulated massive call may outlive it by a moment)
+		} else {
+			c.Direct(op, env0)
+		}
 		hist = append(hist, "an earlier Verify call with the same options (result ignored)")
 		c.st.Count("earlier-verify-call")
 		if c.Chance(1, 2) {
